@@ -79,3 +79,10 @@ def calls_in(term: Any, name: str) -> list[Term]:
 def sh(t: Any, n: int = 160) -> str:
     x = show(t)
     return x if len(x) <= n else x[: n - 3] + "..."
+
+
+def unobj(t: Any) -> Any:
+    """The value a mutated local was created with (identity wrapper removed)."""
+    while isinstance(t, tuple) and t and t[0] == "obj":
+        t = t[2]
+    return t
